@@ -232,6 +232,15 @@ fixed("F16", ["C13", "C16"], "f9cd2a2",
            x={"mode": "seq", "n": 2, "prog2": prog("t0: spawn(1); TlsBump(k=0) || t1: Yield")},
            cfg={"max_permutations": 400, "checkpoint_interval": 1}))
 
+fixed("F17", ["C13"], "70321bb",
+      "the branch limit is the capacity of the branch store; a path loaded from a checkpoint kept the (power-of-two) capacity "
+      "deserialization left it with when that exceeded max_branches, so a checkpoint of an iteration that failed with the "
+      "branch-limit panic did not reproduce the failure: the resumed run continued (77 more iterations in the reproducer)",
+      ["resume_differs", "resume_failure_differs"],
+      case("C13", "corpus", "t0: spawn(1); ld(x2,rlx); await(x0,1,rlx); ld(x2,sc); ld(x1,acq); await(x1,1,sc); ld(x2,rlx) || "
+           "t1: st(x2,1,rel); st(x0,1,rel); st(x2,2,rel); st(x1,1,rel)",
+           x={"mode": "clean", "n": -1, "k": 47546, "c": 1}, cfg={"max_permutations": None, "preemption_bound": 2}))
+
 fixed("F6", ["C01", "C02", "C15", "C18"], "f45e043",
       "one last_access per atomic: a thread's own load masked another thread's earlier load when its store looked for a dependent "
       "access, so main: x=1; r0=x || t: r1=x; x=2 never yielded (r0,r1)=(2,1)",
